@@ -126,7 +126,9 @@ def check(run: Run) -> None:
     if len(cleaners) != 1 or "visit_Call" not in cleaners[0].methods:
         raise AnalysisError("remove_empty_metadata no longer contains one NodeTransformer with visit_Call")
     cc = cleaners[0]
-    cv = cc.methods["visit_Call"]
+    from ..lib import view as _view_c
+
+    cv = _view_c(m, cc.methods["visit_Call"])  # the work may sit in private methods visit_Call returns through
     fc = ctx.analysis(cv)
     cnode = ("param", cv.pos_params[1])
     V = ("gvisit", cnode)
